@@ -3143,6 +3143,8 @@ impl Server {
                 match timeout_str.parse::<f64>() {
                     Ok(t) if t < 0.0 => return Ok(RespFrame::error("ERR timeout is not a float or out of range")),
                     Ok(0.0) => None, // 0 means block forever
+                    // NaN, infinite or absurdly large timeouts cannot be turned into a deadline
+                    Ok(t) if !t.is_finite() || t > 1.0e9 => return Ok(RespFrame::error("ERR timeout is not a float or out of range")),
                     Ok(t) => Some(std::time::Duration::from_secs_f64(t)),
                     Err(_) => return Ok(RespFrame::error("ERR timeout is not a float or out of range")),
                 }
@@ -3202,6 +3204,8 @@ impl Server {
                 match timeout_str.parse::<f64>() {
                     Ok(t) if t < 0.0 => return Ok(RespFrame::error("ERR timeout is not a float or out of range")),
                     Ok(0.0) => None, // 0 means block forever
+                    // NaN, infinite or absurdly large timeouts cannot be turned into a deadline
+                    Ok(t) if !t.is_finite() || t > 1.0e9 => return Ok(RespFrame::error("ERR timeout is not a float or out of range")),
                     Ok(t) => Some(std::time::Duration::from_secs_f64(t)),
                     Err(_) => return Ok(RespFrame::error("ERR timeout is not a float or out of range")),
                 }
